@@ -22,6 +22,22 @@ def strain_field(rng, ntv, cls):
         a = rng.uniform(0.15, 0.4)
         e = numpy.array([a, a, 1 - 2 * a])[rng.permutation(3)]
         return numpy.tile(e, (ntv, 1))
+    if cls in ("crossing-at-a-grid-volume", "isotropic-at-one-volume"):
+        # two (or all three) strain series coincide at exactly one grid volume and differ at every other one
+        k0 = int(rng.integers(0, ntv))
+        k = numpy.arange(ntv) - k0
+        step = 0.2 / max(ntv, 2)
+        if cls == "crossing-at-a-grid-volume":
+            a = float(rng.uniform(0.22, 0.36))
+            e1 = a + step * k * float(rng.uniform(0.5, 1.0))
+            e2 = a - step * k * float(rng.uniform(0.3, 1.0))
+            e = numpy.stack([e1, e2, 1 - e1 - e2], axis=1)[:, rng.permutation(3)]
+        else:
+            sl = numpy.array([1.0, -0.35, -0.65])[rng.permutation(3)] * float(rng.uniform(0.5, 1.0))
+            e = 1 / 3 + step * k[:, None] * sl[None, :]
+            e[k0] = 1 / 3
+        assert e.min() > 0.04
+        return e
     if cls.startswith("near-degenerate"):
         delta = float(cls.split(":")[1])
         a = rng.uniform(0.2, 0.35)
@@ -104,9 +120,9 @@ def run(ctx):
 
 
 def _run(ctx, current, mon):
-    nspec = ctx.pick(8, 208)
+    nspec = ctx.pick(10, 260)
     classes = ["constant", "varying", "equal", "pairwise-equal", "near-degenerate:1e-3", "near-degenerate:1e-4",
-               "near-degenerate:1e-6", "near-degenerate:1e-8"]
+               "near-degenerate:1e-6", "near-degenerate:1e-8", "crossing-at-a-grid-volume", "isotropic-at-one-volume"]
     for isp in range(nspec):
         case_id = f"spec{isp}"
         if not ctx.mine(isp, case_id):
